@@ -10,6 +10,7 @@ package rostrconv
 //@ func Atoi$1
 //@   props C18
 //@   binds v
+//@   calls Atoi
 //@   maypanic
 //@   track call.*
 //@   ensures [calls-the-wrapped-function-once|C18] count(call.ANY) == 1 && called(call.Atoi)
@@ -19,6 +20,7 @@ package rostrconv
 //@ func FormatComplex$1
 //@   props C18
 //@   binds v mt prec bitSize
+//@   calls FormatComplex
 //@   maypanic
 //@   track call.*
 //@   ensures [calls-the-wrapped-function-once|C18] count(call.ANY) == 1 && called(call.FormatComplex)
@@ -28,6 +30,7 @@ package rostrconv
 //@ func FormatFloat$1
 //@   props C18
 //@   binds v mt prec bitSize
+//@   calls FormatFloat
 //@   maypanic
 //@   track call.*
 //@   ensures [calls-the-wrapped-function-once|C18] count(call.ANY) == 1 && called(call.FormatFloat)
@@ -37,6 +40,7 @@ package rostrconv
 //@ func FormatInt$1
 //@   props C18
 //@   binds v base
+//@   calls FormatInt
 //@   maypanic
 //@   track call.*
 //@   ensures [calls-the-wrapped-function-once|C18] count(call.ANY) == 1 && called(call.FormatInt)
@@ -46,6 +50,7 @@ package rostrconv
 //@ func FormatUint$1
 //@   props C18
 //@   binds v base
+//@   calls FormatUint
 //@   maypanic
 //@   track call.*
 //@   ensures [calls-the-wrapped-function-once|C18] count(call.ANY) == 1 && called(call.FormatUint)
@@ -55,6 +60,7 @@ package rostrconv
 //@ func ParseBool$1
 //@   props C18
 //@   binds v
+//@   calls ParseBool
 //@   maypanic
 //@   track call.*
 //@   ensures [calls-the-wrapped-function-once|C18] count(call.ANY) == 1 && called(call.ParseBool)
@@ -64,6 +70,7 @@ package rostrconv
 //@ func ParseFloat$1
 //@   props C18
 //@   binds v bitSize
+//@   calls ParseFloat
 //@   maypanic
 //@   track call.*
 //@   ensures [calls-the-wrapped-function-once|C18] count(call.ANY) == 1 && called(call.ParseFloat)
@@ -73,6 +80,7 @@ package rostrconv
 //@ func ParseInt$1
 //@   props C18
 //@   binds v base bitSize
+//@   calls ParseInt
 //@   maypanic
 //@   track call.*
 //@   ensures [calls-the-wrapped-function-once|C18] count(call.ANY) == 1 && called(call.ParseInt)
@@ -82,6 +90,7 @@ package rostrconv
 //@ func ParseUint$1
 //@   props C18
 //@   binds v base bitSize
+//@   calls ParseUint
 //@   maypanic
 //@   track call.*
 //@   ensures [calls-the-wrapped-function-once|C18] count(call.ANY) == 1 && called(call.ParseUint)
@@ -91,6 +100,7 @@ package rostrconv
 //@ func ParseUint64$1
 //@   props C18
 //@   binds v base bitSize
+//@   calls ParseUint
 //@   maypanic
 //@   track call.*
 //@   ensures [calls-the-wrapped-function-once|C18] count(call.ANY) == 1 && called(call.ParseUint)
